@@ -16,7 +16,14 @@ RULE = ("per module: random configuration x 0..8 heterogeneous particles placed 
         "integer / equal band limits (larvae 30/30, eel hi=lo), sedimentation `vertical_mixing: 0` and taucrit as a "
         "{method: constant} mapping. chemicals: histories with land_collision reposition (stuck particles re-seeded in "
         "their cell, sloping bed) and coastal_diffusion (stub coastal mask), judged against the bed at the new "
-        "position; mine: states without an `active` variable (taucrit >= 1000); egg: neutrally buoyant eggs with a "
+        "position; mine: states without an `active` variable (taucrit >= 1000); mine histories of 2..7 updates "
+        "(thorough: up to 20) with land_collision reposition (given or left to its default) on one IBM object: bed sloping "
+        "in x and / or y inside every cell (|hx| up to h0/16, |hy| h0/64, or flat), taucrit in {0.06, 0.12, 0.32, 1, 0} "
+        "(resuspension) or 1000, mostly calm bottom current relative to that threshold, about half of the suspended "
+        "particles within 0.25..3.5 sinking steps of the bed (they settle during the history and stay settled), stub "
+        "state (flags 0/1/2) and real State, the tracker stand-in moves suspended particles only (x and y, or leaves "
+        "them: those are re-seeded in their cell); every particle - suspended, re-seeded, settled - judged against the "
+        "bed where the update leaves it; egg: neutrally buoyant eggs with a "
         "forced draw landing exactly on 200.0 and on the last double below; saithe: eggs anywhere in 0..200 m "
         "(incl. 0, 1e-9, 0.5 m) judged against the surface, larvae hatched in the previous update outside [30,60], "
         "extra_spreading on (30%, no model request), saithe histories; sandeel: all life stages (eggs hatching and "
@@ -26,6 +33,9 @@ ASSUMPTIONS = ["stub grid/forcing fields are analytic (linear bathymetry, linear
                "egg/lice/larvae depths compared with relative tolerance 1e-9 / 1e-6 (libm pow/exp and float32 narrowing)",
                "which chemicals particles the collision handler re-seeds is taken from the handler's own criterion "
                "(remembered == current position / coastal mask); its correctness is C11's subject",
+               "which mine particles the collision handler should re-seed (expected draw schedule of a reposition history) "
+               "is decided by the harness from its own record of the positions after the previous update and the current "
+               "`active` flag (rule as documented: a suspended particle that has not moved); the rule itself is C11's subject",
                "saithe with extra_spreading has no model request (larva.update cannot express the horizontal part): "
                "implementation-side oracle only"]
 
@@ -66,8 +76,25 @@ def band_oracle(ctx, name, case, res):
                 ctx.oracle(z[i] <= Ha, "C05.chemicals.below_bed_after_horzdiff", site, "Z'=%r H'=%r" % (z[i], Ha), cs(i))
         elif name in ("sedimentation", "mine"):
             H = res["meta"]["H"][i]
+            moved = name == "mine" and (a["x"][i] != b["x"][i] or a["y"][i] != b["y"][i])
             if not (0 <= b["z"][i] <= H):
-                continue
+                # mine's collision handler (`land_collision: reposition`) moves particles inside their grid cell during
+                # the update: "inside the band before the update" is about the bed where the particle was when the update
+                # began, "never below the local sea bed" about the bed where the update leaves it
+                Hb = res["meta"].get("H_before")
+                if not (moved and Hb is not None and 0 <= b["z"][i] <= Hb[i]):
+                    continue
+                ctx.branch("mine.repositioned_over_shallower_bed")
+            if moved:
+                # the bed clause needs no precondition (see below); stated first under its own predicate for a particle
+                # that the update itself moved horizontally
+                ctx.oracle(z[i] <= H, "C05.mine.below_bed_after_reposition", site,
+                           "land_collision=%s moved (X,Y) %r -> %r during the update (active %r -> %r): Z'=%r, local depth "
+                           "there H'=%r (depth where it was: %r, Z before %r)"
+                           % (case["land"], (float(b["x"][i]), float(b["y"][i])), (float(a["x"][i]), float(a["y"][i])),
+                              int(b["active"][i]), int(a["active"][i]), float(z[i]), float(H),
+                              float(res["meta"]["H_before"][i]) if "H_before" in res["meta"] else None, float(b["z"][i])),
+                           cs(i))
             # the bed clause needs no precondition: `bury` puts every suspended particle that is below the bed onto
             # it and settled particles do not move; only the surface clause depends on the size of the step
             bed = lambda: ctx.oracle(z[i] <= H, "C05.%s.below_bed" % name, site, "Z'=%r H=%r" % (z[i], H), cs(i))
@@ -228,6 +255,16 @@ def tag(ctx, name, case, res):
     elif name == "mine":
         if case.get("no_active"):
             ctx.branch("mine.no_active_variable")
+        if case.get("reposition_class") and n:
+            m = res["meta"]; b = res["before"]; a = res["after"]
+            ctx.branch("mine.reseeded_particles", int(np.sum(m["stuck"])))
+            ctx.branch("mine.reseeded_to_shallower_bed", int(np.sum(m["stuck"] & (m["H"] < m["H_before"]))))
+            settled = m["remembered"] & (b["active"] == 0)
+            ctx.branch("mine.settled_particle_in_later_update", int(np.sum(settled)))
+            ctx.branch("mine.settled_particle_stays_settled_over_uneven_bed",
+                       int(np.sum(settled & (a["active"] == 0))) if (case["env"].hx != 0 or case["env"].hy != 0) else 0)
+            ctx.branch("mine.resuspended_in_later_update", int(np.sum(settled & (a["active"] != 0))))
+            ctx.branch("mine.buried_this_update", int(np.sum((b["active"] != 0) & (a["active"] == 0))))
     elif name == "egg":
         if case.get("force_normal") is not None and n:
             a = res["after"]["z"]; b = res["before"]["z"]
@@ -257,6 +294,60 @@ def tag(ctx, name, case, res):
             ctx.branch("lunar_eel.integer_limits")
 
 
+def mine_reposition_case(rng, n=None):
+    """mine with the collision handler switched on (`land_collision: reposition`, which is the default) for a
+    multi-step history: resuspension enabled (taucrit < 1000) in most cases so that particles that reach the bed stay
+    in the state as settled particles, mostly calm water (they stay settled in the following updates), a bed that
+    varies inside every grid cell in x and / or y, and about half of the suspended particles within one sinking step
+    of the bed so that they settle during the history.  Both containers (stub state with 0/1/2 flags, real State)."""
+    c = ibmrun.mine_case(rng, n=n)
+    n = len(c["x"])
+    c["reposition_class"] = True
+    c["land"] = "reposition"
+    c["taucrit"] = rng.choice([0.12, 0.12, 0.06, 0.32, 1.0, 0.0, 1000])
+    h0 = c["env"].h0
+    env = c["env"]
+    # depth stays positive on the whole stub grid: h0 * (1 - 20.5/32 - 20.5/64) > 0
+    env.hx = rng.choice([h0 / 100, -h0 / 100, h0 / 16, -h0 / 32, h0 / 100, 0.0])
+    env.hy = rng.choice([0.0, 0.0, h0 / 64, -h0 / 64])
+    if rng.random() < 0.7:
+        c["lifespan"] = 1e6
+        c["age"] = np.array([rng.choice([0.0, 0.0, 50.0]) for _ in range(n)])
+    # bottom current relative to THIS module's threshold: mostly calm
+    tc = c["taucrit"] if c["taucrit"] < 1000 else 0.12
+    s_at = (tc / 3.0) ** 0.5
+    c["ub"] = np.array([rng.choice([0.0, 0.0, 0.3 * s_at, 0.3 * s_at, s_at * (1 - 1e-9), s_at, 2 * s_at + 0.01]) for _ in range(n)])
+    c["vb"] = np.array([rng.choice([0.0, 0.0, 0.0, 1e-3]) for _ in range(n)])
+    H = env.depth(c["x"], c["y"])
+    z = np.minimum(c["z"], H)
+    act = np.asarray(c["active"])
+    for i in range(n):
+        if act[i] == 0:
+            z[i] = H[i]                              # a settled particle lies on the bed
+        elif rng.random() < 0.5:
+            c["sink"][i] = rng.choice([1e-3, 0.01, 0.1])
+            step = c["dt"] * c["sink"][i]
+            z[i] = max(0.0, H[i] - step * rng.choice([0.25, 0.9, 1.5, 3.5]))   # settles in the 1st / 2nd / 4th update
+    c["z"] = z
+    return c
+
+
+def tracker_y_move(ctx, name, case, state):
+    """the tracker also carries suspended particles along y (the shared `between_steps` moves them along x only, which
+    is all a bed sloping in x needs); settled particles stay where they are; a particle carried over shallower water
+    is put back inside the band (the premise of the next update)"""
+    n = len(case["x"])
+    env = case["env"]
+    act = np.asarray(state["active"]) != 0 if "active" in state else np.ones(n, bool)
+    for i in range(n):
+        if act[i] and ctx.rng.random() < 0.3:
+            state["Y"][i] = min(19.0, max(2.0, state["Y"][i] + ctx.rng.choice([ctx.rng.uniform(-0.3, 0.3), 1e-9, -1e-9])))
+            lim = float(env.depth(state["X"][i], state["Y"][i]))
+            if state["Z"][i] > lim:
+                state["Z"][i] = lim
+            ctx.branch("mine.moved_along_y_between_steps")
+
+
 # opt-in input classes of the shared generators (drawn from the check's own generator)
 GEN_KW = {"egg": lambda rng: dict(exact_cap=rng.random() < 0.3)}
 
@@ -279,7 +370,7 @@ def run(ctx, modules=None, oracle=band_oracle, keys=KEYS, extras=None, gens=None
     use_drv = drv.available
     pending = []
 
-    def history(name, runner, case, h, steps, label="hist"):
+    def history(name, runner, case, h, steps, label="hist", pre_move=None):
         ibm = None; state = None
         for s in range(steps):
             res = runner(case, ctx.sub_seed(), drv if use_drv else None, ibmrun.tail_injector(ctx.rng, 0.1),
@@ -294,6 +385,8 @@ def run(ctx, modules=None, oracle=band_oracle, keys=KEYS, extras=None, gens=None
             pending.append((name, case, res))
             case = refresh_case(name, case, res)
             if extras:
+                if pre_move is not None:
+                    pre_move(ctx, name, case, state)
                 case = between_steps(ctx, name, case, state)
                 if len(case["x"]) == 0:
                     break
@@ -359,6 +452,18 @@ def run(ctx, modules=None, oracle=band_oracle, keys=KEYS, extras=None, gens=None
                 case = ibmrun.mine_case(ctx.rng, n=ctx.rng.randrange(1, 7), no_active=True)
                 case["land"] = "freeze"
                 history(name, runner, case, h, ctx.rng.randrange(2, 5), label="no_active_hist")
+            # collision handling over a history (the standard histories above run with `freeze`): from the second
+            # update on the handler re-seeds suspended particles the tracker has not moved somewhere in their grid cell,
+            # BEFORE resuspension / mixing / sinking / burial; over an uneven bed the bed that counts afterwards is the
+            # one at the new position.  Settled particles are not the tracker's to move and must stay inside the band
+            # too.  The tracker stand-in (`between_steps`, `tracker_y_move`) moves suspended particles only.
+            for h in range(ctx.n(60, 800)):
+                case = mine_reposition_case(ctx.rng, n=ctx.rng.randrange(1, 7))
+                steps = ctx.rng.randrange(2, 8)
+                if ctx.tier == "thorough" and ctx.rng.random() < 0.1:
+                    steps = ctx.rng.randrange(8, 21)
+                history(name, runner, case, h, steps, label="reposition_hist", pre_move=tracker_y_move)
+                ctx.branch("mine.reposition_history")
     if use_drv:
         replies = drv.run()
         for name, case, res in pending:
